@@ -295,6 +295,9 @@ def run(R):
                 R.viol("C09.versions.inflight", "inflight-by-type", "notify_about_new_put keeps the in-flight entry of a key when the stored version's type/hash differs from the advertised one: "
                        "the fetch then times out and its (honest) holder is reported", nb, nb.lines[0])
             R.inst("C09.versions.inflight", "K6 flows-to", "a stored record completes the in-flight fetches of its key whatever version was advertised", len(rets2), oki)
+        # exact polarity of the queue / in-flight pruning closures (truth tables; rules of C08 evaluated here)
+        from props.C08 import retain_rules
+        retain_rules(R, "C09.versions")
         # add_keys' skip tests look at (key, type[, holder]) entries, never at the key alone of an in-flight fetch: a second, differing
         # version advertised while the first is being fetched must still be queued
         akb = R.body("C09.versions.skip", ADDK)
